@@ -283,9 +283,11 @@ def run(ctx):
                 # all interleavings of the first two yield points of each thread
                 scheds = sorted(set(itertools.permutations([0, 0, 1, 1])))
                 # strict alternation and blocks, long enough to cover whole scans of the small ledgers
-                scheds += [tuple([0, 1] * 12), tuple([1, 0] * 12), tuple([0, 0, 1] * 8), tuple([1, 1, 0, 0] * 6)]
-                # plus seeded longer schedules
-                for _ in range(2 if not ctx.thorough() else 6):
+                scheds += [tuple([0, 1] * 12), tuple([1, 0] * 12)]
+                if ctx.thorough() or (qa, qb) not in fixed:
+                    scheds += [tuple([0, 0, 1] * 8), tuple([1, 1, 0, 0] * 6)]
+                # plus seeded longer schedules (the quick tier spends its budget on covering every sensitive pair)
+                for _ in range((1 if (qa, qb) not in fixed else 0) if not ctx.thorough() else 6):
                     scheds.append(tuple(rng.below(2) for _ in range(rng.range(5, 14))))
                 for sched in scheds:
                     got = run_threads(conns, queries, params, sched)
